@@ -139,8 +139,9 @@ def check_table_sequences(ctx):
                   "table max_sequence stored from %s in %s; facts %s" % (key(e["rhs"]), f.name, fmt_atoms(atoms)),
                   subject="table-max-sequence:" + f.name)
     sc = ctx.fn("scan_table", RP)
-    is_count = lambda e: e["e"] == "inc" and key(e["x"]) == "counter"
-    ctx.require(any(is_count(e) for b, i, e in sc.events("inc")), "scan_table: entry counter not found")
+    from ..rules import is_incr
+    is_count = lambda e: is_incr(e, "counter", 1)
+    ctx.require(any(is_count(e) for b, i, e in sc.events()), "scan_table: entry counter not found")
 
     def step(q, e, st, b, i):
         if q == BAD:
